@@ -433,6 +433,12 @@ private:
                                 .count())
       : std::numeric_limits<uint64_t>::max();
 
+    // Reload the thread contexts after ts_now was taken. A thread whose first statement (and
+    // therefore its context registration) happened before ts_now must be read in this pass,
+    // otherwise an event with a later timestamp from another thread (e.g. a flush request) can
+    // be processed before it.
+    _update_active_thread_contexts_cache();
+
     size_t cached_transit_events_count{0};
 
     for (ThreadContext* thread_context : _active_thread_contexts_cache)
